@@ -2038,3 +2038,282 @@ impl World {
         XHopOut { line, viols, tags }
     }
 }
+
+// ================================================================================================
+// C18 / C04: locking — lock_position, then one follow-up instruction on the locked position
+//   H xlock <id> <authMode> <follow none|dec|close|reset|repo|inc|cf|xfer|lock2>
+// The position token is a Token-2022 token whose mint's freeze authority is the position PDA (what
+// open_position_with_token_extensions creates).  authMode (lock step): 0 owner signs; 1 stranger; 2 nobody.
+// Expected: only positions WITH liquidity can be locked; a locked position cannot have liquidity removed,
+// be closed, re-ranged or repositioned, but can add liquidity, collect fees and be transferred.
+// Output: `err <name>` for a refused lock, else `ok <follow> <ok|rej>`.
+// ================================================================================================
+fn t22_mint_with_freeze(supply: u64, freeze: &Pubkey) -> Vec<u8> {
+    use anchor_lang::solana_program::program_option::COption;
+    use anchor_lang::solana_program::program_pack::Pack;
+    let m = anchor_spl::token::spl_token::state::Mint { mint_authority: COption::None, supply, decimals: 0, is_initialized: true, freeze_authority: COption::Some(*freeze) };
+    let mut d = vec![0u8; 82];
+    anchor_spl::token::spl_token::state::Mint::pack(m, &mut d).unwrap();
+    // a Token-2022 mint without extensions is exactly the 82 base bytes (a type byte without TLV data is invalid)
+    d
+}
+
+/// a Token-2022 token account as the associated-token program creates it: base + type byte + ImmutableOwner
+fn t22_token_account(mint: &Pubkey, owner: &Pubkey, amount: u64) -> Vec<u8> {
+    let mut d = crate::fixture::token_account_data(false, mint, owner, amount, false);
+    d.push(2); // account type: Account
+    d.extend_from_slice(&7u16.to_le_bytes()); // ImmutableOwner
+    d.extend_from_slice(&0u16.to_le_bytes());
+    d
+}
+
+impl World {
+    pub fn x_lock(&self, t: &[&str]) -> XHopOut {
+        use anchor_lang::ToAccountMetas;
+        let mut viols = vec![];
+        let mut tags: Vec<&'static str> = vec![];
+        let id: u32 = t[2].parse().unwrap();
+        let auth_mode: u8 = t[3].parse().unwrap();
+        let follow = t[4];
+        let pos0 = match self.pos(id) {
+            Some(p) => p,
+            None => return XHopOut { line: "err NoSuchPosition".to_string(), viols, tags },
+        };
+        let mut base = crate::hist_oracle::clone_world(self);
+        let (ls, us) = (base.array_start_for(pos0.tick_lower_index), base.array_start_for(pos0.tick_upper_index));
+        base.ensure_array(ls);
+        base.ensure_array(us);
+        let funds = u64::MAX / 4;
+        let mut fx = Fx::from_world(&base, None, None, false, false, funds);
+        let t22 = anchor_spl::token_2022::ID;
+        let pmint = k(0x61, id as u8);
+        let (position, _bump) = Pubkey::find_program_address(&[b"position", pmint.as_ref()], &::whirlpool::ID);
+        let ptoken = k(0x62, id as u8);
+        let stranger = k(0x63, 9);
+        let dest = k(0x64, id as u8);
+        let lock_config = Pubkey::find_program_address(&[b"lock_config", position.as_ref()], &::whirlpool::ID).0;
+        let mut pdata = base.positions[&id].clone();
+        pdata[8..40].copy_from_slice(fx.pool.as_ref());
+        pdata[40..72].copy_from_slice(pmint.as_ref());
+        let pos_units = *base.pos_rent.get(&id).unwrap_or(&2);
+        fx.bank.set(position, ::whirlpool::ID, min_balance(pdata.len()) + pos_units as u64 * TICK_RENT, pdata);
+        fx.bank.set(pmint, t22, 3_000_000, t22_mint_with_freeze(1, &position));
+        fx.bank.set(ptoken, t22, 2_100_000, t22_token_account(&pmint, &fx.trader, 1));
+        fx.bank.set(dest, t22, 2_100_000, t22_token_account(&pmint, &stranger, 0));
+        fx.bank.set(stranger, crate::svm::system_id(), 1_000_000_000, vec![]);
+        fx.bank.set_program(crate::svm::system_id());
+        for st in [ls, us] {
+            let key = crate::fixture::tick_array_pda(&fx.pool, st);
+            let mut a = fx.bank.get(&key);
+            let dynamic = base.arrays[&st].dynamic;
+            a.lamports = if dynamic { min_balance(148) + *base.array_rent.get(&st).unwrap_or(&0) as u64 * TICK_RENT } else { min_balance(a.data.len()) };
+            fx.bank.accts.insert(key, a);
+        }
+        let bank0 = fx.bank.clone();
+        // ---- step 1: lock
+        let signer_key = if auth_mode == 1 { stranger } else { fx.trader };
+        let acc = ::whirlpool::accounts::LockPosition {
+            funder: if auth_mode == 2 { stranger } else { fx.trader },
+            position_authority: signer_key,
+            position,
+            position_mint: pmint,
+            position_token_account: ptoken,
+            lock_config,
+            whirlpool: fx.pool,
+            token_2022_program: t22,
+            system_program: crate::svm::system_id(),
+        };
+        let mut metas: Vec<Meta> = acc.to_account_metas(None).iter().map(Meta::from).collect();
+        if auth_mode == 2 {
+            metas[1].signer = false;
+        }
+        let data = ::whirlpool::instruction::LockPosition { lock_type: ::whirlpool::state::LockType::Permanent }.data();
+        let (res, out) = fx.bank.execute(&metas, &data);
+        let frozen = |b: &Bank, key: &Pubkey| b.data(key).get(108).copied() == Some(2);
+        match &res {
+            Err(e) => {
+                let name = err_name(e, &out.logs);
+                if fx.bank.accts != bank0.accts {
+                    viols.push("a failed lock_position changed account state".to_string());
+                }
+                if std::env::var("WPH_LOGS").is_ok() {
+                    eprintln!("lock failed: {:?}\n{}", e, out.logs.join("\n"));
+                }
+                if auth_mode == 0 && pos0.liquidity > 0 {
+                    viols.push(format!("C18 lock_position of a position with liquidity by its owner fails with {}", name));
+                }
+                tags.push(if auth_mode != 0 { "lock_unauthorized_rejected" } else { "lock_empty_rejected" });
+                return XHopOut { line: format!("err {}", name), viols, tags };
+            }
+            Ok(()) => {
+                if auth_mode != 0 {
+                    viols.push(format!("C04 lock_position succeeded although the position owner did not sign (mode {})", auth_mode));
+                }
+                if pos0.liquidity == 0 {
+                    viols.push("C18 a position without liquidity was locked".to_string());
+                }
+                if !frozen(&fx.bank, &ptoken) {
+                    viols.push("C18 lock_position did not freeze the position token account".to_string());
+                }
+                let lc = fx.bank.get(&lock_config);
+                if lc.owner != ::whirlpool::ID || lc.data.len() < 8 + 32 * 3 {
+                    viols.push("C18 lock_position did not create the lock config".to_string());
+                }
+                if fx.bank.data(&position) != bank0.data(&position) {
+                    viols.push("C18 lock_position changed the position account".to_string());
+                }
+                tags.push("lock_ok");
+            }
+        }
+        // ---- step 2: the follow-up on the locked position, signed by the owner
+        let locked = fx.bank.clone();
+        let (ta_l, ta_u) = (crate::fixture::tick_array_pda(&fx.pool, ls), crate::fixture::tick_array_pda(&fx.pool, us));
+        let liq_dec = pos0.liquidity.max(1);
+        let (m2, d2): (Vec<Meta>, Vec<u8>) = match follow {
+            "none" => return XHopOut { line: "ok none ok".to_string(), viols, tags },
+            "dec" | "inc" => {
+                let a = ::whirlpool::accounts::ModifyLiquidityV2 {
+                    whirlpool: fx.pool,
+                    token_program_a: fx.prog_a,
+                    token_program_b: fx.prog_b,
+                    memo_program: anchor_spl::memo::ID,
+                    position_authority: fx.trader,
+                    position,
+                    position_token_account: ptoken,
+                    token_mint_a: fx.mint_a,
+                    token_mint_b: fx.mint_b,
+                    token_owner_account_a: fx.trader_a,
+                    token_owner_account_b: fx.trader_b,
+                    token_vault_a: fx.vault_a,
+                    token_vault_b: fx.vault_b,
+                    tick_array_lower: ta_l,
+                    tick_array_upper: ta_u,
+                };
+                let d = if follow == "dec" {
+                    ::whirlpool::instruction::DecreaseLiquidityV2 { liquidity_amount: liq_dec, token_min_a: 0, token_min_b: 0, remaining_accounts_info: None }.data()
+                } else {
+                    ::whirlpool::instruction::IncreaseLiquidityV2 { liquidity_amount: 1, token_max_a: u64::MAX, token_max_b: u64::MAX, remaining_accounts_info: None }.data()
+                };
+                (a.to_account_metas(None).iter().map(Meta::from).collect(), d)
+            }
+            "close" => {
+                let a = ::whirlpool::accounts::ClosePositionWithTokenExtensions { position_authority: fx.trader, receiver: fx.trader, position, position_mint: pmint, position_token_account: ptoken, token_2022_program: t22 };
+                (a.to_account_metas(None).iter().map(Meta::from).collect(), ::whirlpool::instruction::ClosePositionWithTokenExtensions {}.data())
+            }
+            "reset" => {
+                let a = ::whirlpool::accounts::ResetPositionRange { funder: fx.trader, position_authority: fx.trader, whirlpool: fx.pool, position, position_token_account: ptoken, system_program: crate::svm::system_id() };
+                let ts = fx.wp().tick_spacing as i32;
+                (
+                    a.to_account_metas(None).iter().map(Meta::from).collect(),
+                    ::whirlpool::instruction::ResetPositionRange { new_tick_lower_index: pos0.tick_lower_index, new_tick_upper_index: (pos0.tick_upper_index - ts).max(pos0.tick_lower_index + ts) }.data(),
+                )
+            }
+            "repo" => {
+                let a = ::whirlpool::accounts::RepositionLiquidityV2 {
+                    whirlpool: fx.pool,
+                    token_program_a: fx.prog_a,
+                    token_program_b: fx.prog_b,
+                    memo_program: anchor_spl::memo::ID,
+                    position_authority: fx.trader,
+                    funder: fx.trader,
+                    position,
+                    position_token_account: ptoken,
+                    token_mint_a: fx.mint_a,
+                    token_mint_b: fx.mint_b,
+                    token_owner_account_a: fx.trader_a,
+                    token_owner_account_b: fx.trader_b,
+                    token_vault_a: fx.vault_a,
+                    token_vault_b: fx.vault_b,
+                    existing_tick_array_lower: ta_l,
+                    existing_tick_array_upper: ta_u,
+                    new_tick_array_lower: ta_l,
+                    new_tick_array_upper: ta_u,
+                    system_program: crate::svm::system_id(),
+                };
+                let d = ::whirlpool::instruction::RepositionLiquidityV2 {
+                    new_tick_lower_index: pos0.tick_lower_index,
+                    new_tick_upper_index: pos0.tick_upper_index,
+                    method: ::whirlpool::instructions::RepositionLiquidityMethod::ByLiquidity { new_liquidity_amount: 1, existing_range_token_min_a: 0, existing_range_token_min_b: 0, new_range_token_max_a: u64::MAX, new_range_token_max_b: u64::MAX },
+                    remaining_accounts_info: None,
+                }
+                .data();
+                (a.to_account_metas(None).iter().map(Meta::from).collect(), d)
+            }
+            "cf" => {
+                let a = ::whirlpool::accounts::CollectFeesV2 {
+                    whirlpool: fx.pool,
+                    position_authority: fx.trader,
+                    position,
+                    position_token_account: ptoken,
+                    token_mint_a: fx.mint_a,
+                    token_mint_b: fx.mint_b,
+                    token_owner_account_a: fx.trader_a,
+                    token_vault_a: fx.vault_a,
+                    token_owner_account_b: fx.trader_b,
+                    token_vault_b: fx.vault_b,
+                    token_program_a: fx.prog_a,
+                    token_program_b: fx.prog_b,
+                    memo_program: anchor_spl::memo::ID,
+                };
+                (a.to_account_metas(None).iter().map(Meta::from).collect(), ::whirlpool::instruction::CollectFeesV2 { remaining_accounts_info: None }.data())
+            }
+            "xfer" => {
+                let a = ::whirlpool::accounts::TransferLockedPosition { position_authority: fx.trader, receiver: fx.trader, position, position_mint: pmint, position_token_account: ptoken, destination_token_account: dest, lock_config, token_2022_program: t22 };
+                (a.to_account_metas(None).iter().map(Meta::from).collect(), ::whirlpool::instruction::TransferLockedPosition {}.data())
+            }
+            _ => {
+                // lock2: lock again
+                let a = ::whirlpool::accounts::LockPosition { funder: fx.trader, position_authority: fx.trader, position, position_mint: pmint, position_token_account: ptoken, lock_config, whirlpool: fx.pool, token_2022_program: t22, system_program: crate::svm::system_id() };
+                (a.to_account_metas(None).iter().map(Meta::from).collect(), ::whirlpool::instruction::LockPosition { lock_type: ::whirlpool::state::LockType::Permanent }.data())
+            }
+        };
+        let (res2, out2) = fx.bank.execute(&m2, &d2);
+        let must_fail = matches!(follow, "dec" | "close" | "reset" | "repo" | "lock2");
+        let line = match &res2 {
+            Err(e) => {
+                let name = err_name(e, &out2.logs);
+                if fx.bank.accts != locked.accts {
+                    viols.push("a failed instruction on a locked position changed account state".to_string());
+                }
+                if !must_fail {
+                    // adding liquidity may legitimately fail in the managers; fee collection / transfer may not
+                    let inc_ref_fails = follow == "inc" && {
+                        let mut r = crate::hist_oracle::clone_world(&base);
+                        r.vault_a = u128::MAX / 4;
+                        r.vault_b = u128::MAX / 4;
+                        std::panic::catch_unwind(std::panic::AssertUnwindSafe(|| r.modify_pub(id, 1, true, true))).map(|x| x.is_err()).unwrap_or(true)
+                    };
+                    let cf_short = follow == "cf" && (pos0.fee_owed_a > token_amount(&locked.data(&fx.vault_a)) || pos0.fee_owed_b > token_amount(&locked.data(&fx.vault_b)));
+                    if !(inc_ref_fails || cf_short) {
+                        viols.push(format!("C18 `{}` on a locked position must be allowed but fails with {}", follow, name));
+                    }
+                }
+                tags.push("lock_follow_rejected");
+                format!("ok {} rej", follow)
+            }
+            Ok(()) => {
+                if must_fail {
+                    viols.push(format!("C18 `{}` succeeded on a locked position", follow));
+                }
+                if follow == "xfer" {
+                    if !frozen(&fx.bank, &dest) || token_amount(&fx.bank.data(&dest)) != 1 {
+                        viols.push("C18 transfer_locked_position: the destination does not hold the frozen position token".to_string());
+                    }
+                    let src = fx.bank.get(&ptoken);
+                    if !(src.data.is_empty() || src.lamports == 0) {
+                        viols.push("C18 transfer_locked_position left the source token account open".to_string());
+                    }
+                    let lc = fx.bank.data(&lock_config);
+                    if lc.len() >= 8 + 64 && lc[8 + 32..8 + 64] != stranger.to_bytes() {
+                        viols.push("C18 transfer_locked_position did not record the new owner in the lock config".to_string());
+                    }
+                } else if !frozen(&fx.bank, &ptoken) {
+                    viols.push(format!("C18 `{}` left the locked position's token account unfrozen", follow));
+                }
+                tags.push("lock_follow_ok");
+                format!("ok {} ok", follow)
+            }
+        };
+        XHopOut { line, viols, tags }
+    }
+}
